@@ -35,6 +35,21 @@ Arguments si_str {V}. Arguments si_hook {V}. Arguments si_modelled {V}.
 
 Record pcase := { pc_i : nat; pc_j : nat; pc_ij : oc; pc_ji : oc }.
 
+(* canonical-rule case: the expected result is stored in the case; it was fixed by the harness when it CONSTRUCTED
+   the two strings from the ecosystem's published ordering rules (it never comes from the model) *)
+Record rcase := { rc_i : nat; rc_j : nat; rc_expect : comparison; rc_ij : oc; rc_ji : oc }.
+
+(* declarative: the implementation must answer the published sign, and its negation the other way round *)
+Definition rule_ok (r : rcase) : bool :=
+  outcome_cmp_eqb (rc_ij r) (Ok (rc_expect r)) && outcome_cmp_eqb (rc_ji r) (Ok (CompOpp (rc_expect r))).
+
+Fixpoint rules_bad (l : list rcase) (i : nat) : list nat :=
+  match l with
+  | [] => []
+  | r :: t => if rule_ok r then rules_bad t (S i) else i :: rules_bad t (S i)
+  end.
+Definition spec_rules (l : list rcase) : list nat := rules_bad l 0.
+
 Definition outcome_eqb {V} (e : V -> V -> bool) (a b : outcome V) : bool :=
   match a, b with
   | Ok x, Ok y => e x y
